@@ -2,6 +2,7 @@ package c19
 
 import (
 	"bufio"
+	"crypto/tls"
 	"io"
 	"net"
 	"net/http"
@@ -19,6 +20,7 @@ type rig struct {
 	dead     net.Listener
 
 	originAddr, upstreamAddr, deadAddr string
+	frontCert                          tls.Certificate // presented by the per-run fault fronts (front.go)
 
 	mu           sync.Mutex
 	originAuth   map[string]int // Authorization header values seen by the origin
@@ -39,6 +41,12 @@ func (g *rig) sawUpstream(v string) bool {
 
 func newRig() (*rig, error) {
 	g := &rig{originAuth: map[string]int{}, upstreamAuth: map[string]int{}}
+	certPEM, keyPEM := keyPair(0xc19f, false)
+	fc, err := tls.X509KeyPair(certPEM, keyPEM)
+	if err != nil {
+		return nil, err
+	}
+	g.frontCert = fc
 
 	ol, err := net.Listen("tcp4", "127.0.0.1:0")
 	if err != nil {
@@ -55,6 +63,8 @@ func newRig() (*rig, error) {
 		w.Header().Set("X-Origin", "c19")
 		io.WriteString(w, "origin ok\n")
 	})}
+	// no idle connections in the proxy's pool: every exchange of a run meets the fault armed for it
+	g.origin.SetKeepAlivesEnabled(false)
 	go g.origin.Serve(ol)
 
 	dl, err := net.Listen("tcp4", "127.0.0.1:0")
@@ -143,6 +153,7 @@ func newRig() (*rig, error) {
 		}
 		fwd.ServeHTTP(w, r)
 	})}
+	g.upstream.SetKeepAlivesEnabled(false)
 	go g.upstream.Serve(ul)
 	return g, nil
 }
